@@ -108,10 +108,10 @@ Qed.
 
 Lemma InvA_step : forall s e, InvA s -> InvA (fst (step s e)).
 Proof.
-  intros [ps lg st h c pe la lc m g sl r ep ak ar ds] e
+  intros [w ps lg st h c pe la lc m g sl r ep ak ar ds] e
          [Hres Hcur Hack Hpush Hst Hpers Hlate Hlacc (bs & tl & Hep & Hlen) Heps].
   cbn [resume cur logs hnd epochs acked acked_r stored pers late lacc] in *.
-  assert (Hsame : InvA (mk ps lg st h c pe la lc m g sl r ep ak ar ds)).
+  assert (Hsame : InvA (mk w ps lg st h c pe la lc m g sl r ep ak ar ds)).
   { constructor; cbn; auto. exists bs, tl; auto. }
   Ltac fin bs tl := cbn; constructor; cbn; auto; try lia; try (intros; discriminate);
                     try solve [exists bs, tl; auto].
@@ -161,18 +161,18 @@ Proof.
   - (* Halt *)
     assert (Hl' : Forall (fun gv : nat * Z => 0 <= snd gv <= ak) (push_late g pe la)).
     { apply Forall_push_late; auto. }
-    destruct h; try exact Hsame; destruct m; try exact Hsame;
+    destruct w; (destruct h; try exact Hsame; destruct m; try exact Hsame);
       try (specialize (Hpush hi eq_refl));
       try (assert (Hlc' : Forall (fun p : Z * Z => 0 <= fst p < snd p /\ snd p <= lg) ((c, hi) :: lc))
              by (constructor; [cbn; lia | exact Hlacc])).
-    + fin bs tl.
-    + fin bs tl.
-      * exists [], ep. split; reflexivity.
-      * constructor; auto. apply epoch_ok_nil. lia.
-    + fin bs tl.
-    + fin bs tl.
-      * exists [], ep. split; reflexivity.
-      * constructor; auto. apply epoch_ok_nil. lia.
+    all: fin bs tl.
+    all: try (exists [], ep; split; reflexivity).
+    all: try (constructor; auto; apply epoch_ok_nil; lia).
+  - (* StopDone *)
+    destruct h; try exact Hsame; destruct pe; try exact Hsame; destruct m; try exact Hsame.
+    all: fin bs tl.
+    all: try (exists [], ep; split; reflexivity).
+    all: try (constructor; auto; apply epoch_ok_nil; lia).
   - (* ResetReq *)
     destruct m, h; try exact Hsame; fin bs tl.
   - (* Start *)
@@ -210,10 +210,10 @@ Qed.
 
 Lemma InvC_step : forall s e, InvA s -> InvC s -> InvC (fst (step s e)).
 Proof.
-  intros [ps lg st h c pe la lc m g sl r ep ak ar ds] e HA [Htags Hnone Hns].
+  intros [w ps lg st h c pe la lc m g sl r ep ak ar ds] e HA [Htags Hnone Hns].
   destruct HA as [Hres Hcur Hack Hpush Hst Hpers Hlate _ _].
   cbn [resume cur logs hnd epochs acked acked_r stored pers late gen stale dsr] in *.
-  assert (Hsame : InvC (mk ps lg st h c pe la lc m g sl r ep ak ar ds)) by (constructor; cbn; auto).
+  assert (Hsame : InvC (mk w ps lg st h c pe la lc m g sl r ep ak ar ds)) by (constructor; cbn; auto).
   assert (Htags' : Forall (fun gv : nat * Z => (fst gv <= S g)%nat) (push_late g pe la)).
   { apply Forall_push_late; [|intros; cbn; lia]. eapply Forall_impl; [|exact Htags]. cbn. intros; lia. }
   assert (Hfresh : Forall (fun gv : nat * Z => fst gv = S g -> snd gv <= 0) (push_late g pe la)).
@@ -268,6 +268,12 @@ Proof.
   - (* StopReq *)
     destruct m, h; try exact Hsame; (cbn; constructor; cbn; auto).
   - (* Halt *)
+    destruct w.
+    { (* repaired: the handler is gone, the persister and the operation go on *)
+      destruct h; try exact Hsame; destruct m; try exact Hsame.
+      all: cbn; constructor; cbn; auto; try (intros; discriminate).
+      all: intros Hsl; destruct (Hns Hsl) as (H1 & H2 & H3 & H4 & H5); repeat split; auto.
+      all: intros _; apply H4; discriminate. }
     destruct h; try exact Hsame; destruct m; try exact Hsame.
     all: cbn; constructor; cbn; auto; try (intros; discriminate).
     all: try (intros Hsl; destruct (Hns Hsl) as (H1 & H2 & H3 & H4 & H5)).
@@ -278,6 +284,14 @@ Proof.
     + repeat split; auto; try (intros; discriminate); try (intros; congruence).
       apply Forall_push_late; auto.
     + repeat split; auto; try lia; try (intros; discriminate).
+  - (* StopDone *)
+    destruct h; try exact Hsame; destruct pe; try exact Hsame; destruct m; try exact Hsame.
+    + cbn. constructor; cbn; auto.
+      intros Hsl. destruct (Hns Hsl) as (H1 & H2 & H3 & H4 & H5).
+      repeat split; auto; try (intros; discriminate); try (intros Hx; congruence).
+    + cbn. constructor; cbn; auto; try (intros; discriminate).
+      intros Hsl. repeat split; try lia; try (intros; discriminate).
+      eapply Forall_impl; [|exact Htags]. cbn. intros a Ha Hb. lia.
   - (* ResetReq *)
     destruct m, h; try exact Hsame; cbn; constructor; cbn; auto.
     + eapply Forall_impl; [|exact Htags]. cbn. intros; lia.
@@ -328,18 +342,18 @@ Qed.
 Definition after_fetch_push (s : state) : state :=
   let c := cur s in
   let hi := c + Z.min (Z.max 1 (psz s)) (logs s - c) in
-  mk (psz s) (logs s) (stored s) HSend hi (pers s) (late s) (lacc s) (mgr s) (gen s) (stale s) (resume s)
+  mk (wt s) (psz s) (logs s) (stored s) HSend hi (pers s) (late s) (lacc s) (mgr s) (gen s) (stale s) (resume s)
      (add_batch (page c hi) (epochs s)) (Z.max (acked s) hi) (Z.max (acked_r s) hi)
      (dsr s ++ page c hi).
 
 Lemma fetch_push : forall s, hnd s = HIdle -> cur s < logs s ->
   run_from s [Fetch; PushOk] = after_fetch_push s /\ all_enabled s [Fetch; PushOk] = true.
 Proof.
-  intros [ps lg st h c pe la lc m g sl r ep ak ar ds] Hh Hlt. cbn in Hh, Hlt. subst h.
+  intros [w ps lg st h c pe la lc m g sl r ep ak ar ds] Hh Hlt. cbn in Hh, Hlt. subst h.
   assert (Hk : (Z.min (Z.max 1 ps) (lg - c) <=? 0) = false) by (apply Z.leb_gt; lia).
   unfold all_enabled, after_fetch_push.
   cbn [run_from outs_from step fst snd]. rewrite Hk.
-  cbn [run_from outs_from step fst snd app existsb refusedb negb orb psz logs stored cur pers late lacc mgr gen
+  cbn [run_from outs_from step fst snd app existsb refusedb negb orb wt psz logs stored cur pers late lacc mgr gen
        stale resume epochs acked acked_r dsr]. split; reflexivity.
 Qed.
 
@@ -351,13 +365,13 @@ Lemma progress_step : forall s, InvA s -> started s = true -> cur s < logs s ->
   logs s' = logs s /\ resume s' = resume s.
 Proof.
   intros s HA Hst Hlt.
-  destruct s as [ps lg st h c pe la lc m g sl r ep ak ar ds].
+  destruct s as [w ps lg st h c pe la lc m g sl r ep ak ar ds].
   pose proof (a_push _ HA) as Hpush. cbn in Hpush, Hlt.
   unfold started in Hst. cbn in Hst.
   destruct h; try discriminate; destruct m; try discriminate.
   - (* HIdle *)
     cbv zeta. unfold progress_sched. cbn [hnd].
-    destruct (fetch_push (mk ps lg st HIdle c pe la lc MIdle g sl r ep ak ar ds) eq_refl Hlt) as [Hr He].
+    destruct (fetch_push (mk w ps lg st HIdle c pe la lc MIdle g sl r ep ak ar ds) eq_refl Hlt) as [Hr He].
     rewrite Hr, He. unfold after_fetch_push, delivered, started. cbn.
     repeat split; auto; try lia. apply In_delivered_add, In_page. lia.
   - (* HPush *)
@@ -418,7 +432,7 @@ Definition stale_store (o : output) : bool := match o with OStore _ true => true
 Lemma stale_step : forall s e,
   stale (fst (step s e)) = stale s || existsb stale_store (snd (step s e)).
 Proof.
-  intros [ps lg st h c pe la lc m g sl r ep ak ar ds] e.
+  intros [w ps lg st h c pe la lc m g sl r ep ak ar ds] e.
   destruct e; cbn [step];
     repeat match goal with
            | |- context [match ?x with _ => _ end] => destruct x
@@ -432,4 +446,40 @@ Proof.
   induction evs as [|e tl IH]; intros s; simpl.
   - now rewrite orb_false_r.
   - rewrite IH, stale_step, existsb_app, orb_assoc. reflexivity.
+Qed.
+
+(* ---------- the repaired code (wt = true): no store outlives the operation that stopped its handler ---------- *)
+Lemma wt_step : forall s e, wt (fst (step s e)) = wt s.
+Proof.
+  intros [w ps lg st h c pe la lc m g sl r ep ak ar ds] e.
+  destruct e; cbn [step];
+    repeat match goal with
+           | |- context [match ?x with _ => _ end] => destruct x
+           end; reflexivity.
+Qed.
+
+Definition InvW (s : state) : Prop := wt s = true -> late s = [] /\ stale s = false.
+
+Lemma InvW_step : forall s e, InvW s -> InvW (fst (step s e)).
+Proof.
+  intros s e HW Hw. rewrite wt_step in Hw. destruct (HW Hw) as [Hl Hs]. clear HW.
+  destruct s as [w ps lg st h c pe la lc m g sl r ep ak ar ds]. cbn in Hw, Hl, Hs. subst w la sl.
+  destruct e; cbn [step]; try (destruct k; cbn [nth_error]);
+    repeat match goal with
+           | |- context [match ?x with _ => _ end] => destruct x
+           end; cbn; auto.
+Qed.
+
+Lemma InvW_run_from : forall evs s, InvW s -> InvW (run_from s evs).
+Proof. induction evs as [|e tl IH]; intros s H; simpl; auto. apply IH, InvW_step, H. Qed.
+
+Lemma wt_run_from : forall evs s, wt (run_from s evs) = wt s.
+Proof.
+  induction evs as [|e tl IH]; intros s; cbn [run_from]; auto. rewrite IH. apply wt_step.
+Qed.
+
+Lemma InvW_run : forall ps evs, late (run ps evs) = [] /\ stale (run ps evs) = false.
+Proof.
+  intros. assert (H : InvW (run ps evs)) by (apply InvW_run_from; intros _; split; reflexivity).
+  apply H. unfold run. rewrite wt_run_from. reflexivity.
 Qed.
